@@ -331,6 +331,17 @@ _ZW = ('INDENT', 'DEDENT', 'ERROR_DEDENT')
 def check_C09(code, version, env):
     F = []
     vi = parse_version_string(version)
+    # the stream of this text does not depend on streams abandoned before it (inside an indented block, inside brackets,
+    # inside an f-string)
+    try:
+        for t_ in tokenize("if x:\n  f'{a", version_info=vi):
+            if t_.string == '{':
+                break
+        for t_ in tokenize('if x:\n    (a\n', version_info=vi):          # dropped after the '(' inside the block
+            if t_.string == '(':
+                break
+    except Exception:  # noqa
+        pass
     try:
         toks = list(tokenize(code, version_info=vi))
     except Exception as e:  # noqa
@@ -648,6 +659,23 @@ def check_C19(code, version, env):
         back = pickle.loads(pickle.dumps(m))
         if _struct(back) != ref or not _parents_ok(back) or back.get_code() != code:
             F.append(Fail('bnd:C19.pickle', 'pickle', 'unpickled tree differs', code))
+    except RecursionError:
+        pass
+    except Exception as e:  # noqa
+        F.append(_crash('bnd:C19.pickle', e, code))
+    # a tree that has been used (lazily computed attributes filled in: the used-names index, an issue listing) still
+    # survives serialisation, and the copy answers the same
+    try:
+        names = {k: [n.start_pos for n in v] for k, v in m.get_used_names().items()}
+        try:
+            list(g.iter_errors(m))
+        except Exception:  # noqa   crashes of the error finder are C13's business
+            pass
+        back = pickle.loads(pickle.dumps(m))
+        if _struct(back) != ref or not _parents_ok(back) or back.get_code() != code:
+            F.append(Fail('bnd:C19.pickle', 'pickle-after-use', 'tree unpickled after use differs', code))
+        elif {k: [n.start_pos for n in v] for k, v in back.get_used_names().items()} != names:
+            F.append(Fail('bnd:C19.pickle', 'used-names-after-pickle', 'used-names index of the copy differs', code))
     except RecursionError:
         pass
     except Exception as e:  # noqa
